@@ -9,6 +9,13 @@ def pOp : P Op := do
   let t ← tok
   match t with
   | "I" => do let x ← pRat; pure (.interp x)
+  | "Io" => do let x ← pRat; pure (.interp x)        -- operator() is Interpolate
+  -- self-assignment, move construction + move assignment back: the object keeps every member (`copy` of the model);
+  -- Save_Function(file, n) calls Interpolate at n points of the domain and discards the values: by `history_independent`
+  -- the search state it leaves cannot be observed, the model keeps the object
+  | "Cs" => pure .copy
+  | "Cm" => pure .copy
+  | "Sv" => do let _ ← pNat; pure .copy
   | "D" => do let x ← pRat; let k ← pNat; pure (.deriv x k)
   | "G" => do let a ← pRat; let b ← pRat; pure (.integ a b)
   | "m" => do let a ← pRat; let b ← pRat; pure (.locmin a b)
@@ -25,6 +32,10 @@ def pOp2 : P Op2 := do
   let t ← tok
   match t with
   | "I" => do let x ← pRat; let y ← pRat; pure (.interp x y)
+  | "Io" => do let x ← pRat; let y ← pRat; pure (.interp x y)
+  | "Cs" => pure .copy
+  | "Cm" => pure .copy
+  | "Sv" => do let _ ← pNat; pure .copy
   | "gm" => pure .globmin
   | "gM" => pure .globmax
   | "P" => do let p ← pRat; pure (.setpref p)
